@@ -297,6 +297,7 @@ func (x *Exec) evalUnary(st *State, e *ast.UnaryExpr, want int) T {
 		v := x.havocVal(st, "recv", ct.Elem())
 		okv := x.d.freshConst("recvok", tyBool)
 		st.assume(implies(okv.S, x.chanInvFor(st, e.X, ch, v)))
+		x.applyRecvRules(st, e.X, ch, v, ct.Elem())
 		if want == 2 {
 			return T{Tuple: []T{v, okv}}
 		}
@@ -879,6 +880,9 @@ func (x *Exec) modifiedBy(nodes []ast.Node) *modSet {
 			case *ast.UnaryExpr:
 				if s.Op == token.AND {
 					m.allocs = true
+				}
+				if s.Op == token.ARROW {
+					x.recvModifies(s, m)
 				}
 			case *ast.CompositeLit:
 				m.allocs = true
